@@ -180,7 +180,7 @@ class Obl:
     def __init__(self, name, harness, defines=None, variant="dbg", unwind=None, unwindset=None, flags=None,
                  timeout=300, mem_gb=8, desc="", funcs=None, bounds="", nontrivial=True, sample=None,
                  extra_src=None, gen_src=None, pipeline="cbmc", dfcc=None, leak=False, backend=None,
-                 no_witness=False, drop_base=None, depth=None, ptrcheck=True, cost=None, paths_first=False):
+                 no_witness=False, drop_base=None, depth=None, ptrcheck=True, cost=None, paths_first=False, advisory=False):
         self.name = name
         self.harness = harness
         self.defines = dict(defines or {})
@@ -207,6 +207,7 @@ class Obl:
         self.cost = cost            # scheduling hint: heavy obligations start first
         self.paths_first = paths_first  # pre-pass with path-wise symex (--paths lifo --stop-on-fail): a defect that corrupts the heap is reported from the first failing path instead of blowing up the monolithic formula
         self._traces = {}
+        self.advisory = advisory    # implementation-level lemma (extends a claim under the current implementation); its failure is recorded in the evidence but is not a violation of the property
         self.ptrcheck = ptrcheck   # False: functional obligation; memory-safety checks are decided by the safety obligations (C01)
 
     def key(self):
